@@ -16,6 +16,7 @@ import (
 )
 
 type Engine struct {
+	verif     string
 	repo      string
 	modPath   string
 	prog      *ssa.Program
@@ -513,6 +514,11 @@ func (eng *Engine) evalInit(p *ssa.Package) {
 			// plain values only: a reference computed by the initialiser is an artefact of
 			// its allocation numbering and must not leak as a literal
 			if v.IsLit() && (v.sort.IsBV() || v.sort == SBool) {
+				gi.known = true
+				gi.term = v
+			}
+			// a function-valued variable initialised with a named function
+			if _, isSig := pt.Underlying().(*types.Signature); isSig && v.IsLit() && v.val != nil && v.val.Cmp(big.NewInt(1000000)) >= 0 {
 				gi.known = true
 				gi.term = v
 			}
